@@ -185,6 +185,17 @@ CHECKS["C27"] = ("model_checking",
     "loop iterations; TLC checks: the repair completes, every original computation is actually hosted by exactly one surviving agent and the directory names that agent, "
     "a re-hosted computation went to a holder of its replica, untouched computations stayed, status OK only then, and no handler raised.",
     "Trusted: TLC (Repair.tla), vlib/orchrt.py + vlib/agentrt.py. Interleavings are sampled; real-thread repairs are not run.", "DESIGN.md section 4 C27")
+
+CHECKS["C23"] = ("model_checking",
+    "outcomes of the real distribution methods on TLC-drawn DCOPs and agent sets judged by TLC against Distribution.tla (Judge_C23)",
+    "TLC draws DCOPs (Gen_Dcop, 8 shapes, built as constraints hyper-graph, factor graph and pseudo-tree) and agent sets (Gen_C25: 2-3 quick / 1-4 agents, capacities from "
+    "too small to ample, hosting costs with default 0 or 4, symmetric routes), with and without a must_host hint; oneagent, adhoc, gh_cgdp, heur_comhost, ilp_compref, "
+    "oilp_cgdp and ilp_fgdp are called through their API on the graph models they support with the algorithm's own footprint / load functions; TLC checks that a returned "
+    "mapping hosts every computation exactly once on declared agents, honours the hint and (capacity-aware methods) the capacities; ImpossibleDistributionException and "
+    "TimeoutError are accepted, any other exception is a violation.",
+    "Trusted: TLC (Distribution.tla); the ILP models are solved by PuLP's CBC (glpsol is absent; the harness replaces the module attribute GLPK_CMD). The distribute "
+    "command line and the SECP-specific methods are not exercised. Three known findings (hints ignored by all methods but adhoc; hosting cost 0 as pin in gh_cgdp / ilp_fgdp).",
+    "DESIGN.md section 4 C23")
 NOT_YET = "check not built yet in this snapshot (work in progress, see DESIGN.md section 9)"
 
 fix_commits = subprocess.run(["git", "-C", "/repo", "log", "--format=%h %s", "aeaae91..HEAD"], capture_output=True, text=True).stdout.splitlines()
